@@ -4,7 +4,8 @@ C13 -- each yield receives the response to its own message.
 Model: Engine/Model.lean + Engine/Sim.lean (`_run` as a program-counter machine; the plan stack and the
 response stack are the lists `planStack` / `respStack`, the popped response in flight is `resp`).
 Helper lemmas: Lemmas/C13Stack.lean (data operations, command handlers), C13Blocks.lean (control blocks,
-`advanceAt`), C13Sched.lean (API layer, scheduler), C13Resp.lean (what is pushed / delivered).
+`advanceAt`), C13Sched.lean (API layer, scheduler), C13Resp.lean (what is pushed / delivered), C13Logs.lean (who
+writes the message / yield logs), C13Uids.lean (`_run_start_uids` vs. the RunStart documents).
 
 What is proved
 * the stack discipline `assert len(self._response_stack) == len(self._plan_stack)` as a GLOBAL invariant of
@@ -12,6 +13,8 @@ What is proved
 * delivery: what `afterSleep` sends into the top plan is the top of the response stack, and that slot was
   filled by `processMsg` with the outcome of the message this very plan yielded (value sent / exception thrown);
 * the command-specific values (open_run uid, reading = cached event datum, status identity);
+* `RE(...)` / `resume()` / `abort()`... return exactly the runs of the RunStart documents emitted since the call
+  began, in order (a second global invariant, `C13_return_uids`);
 * for commands that really suspend (`sleep`, `wait`, `wait_for`, deferred-pause `checkpoint`): resuming `_run`
   pushes `pushedAnswer`; WITHOUT a cancellation this is the command's own answer (`..._partial`).
 The full statement `C13_full` is FALSE on the unchanged tree (finding F6, Counterexamples/C13.lean): a
@@ -19,6 +22,7 @@ cancellation delivered inside a command makes the inner `finally` answer the sus
 -/
 import BlueskyVerif.Lemmas.C13Resp
 import BlueskyVerif.Lemmas.C13Logs
+import BlueskyVerif.Lemmas.C13Uids
 
 namespace BlueskyVerif.C13
 open BlueskyVerif.Engine
@@ -194,6 +198,26 @@ theorem C13_sleep_answer_partial (cancel : Bool) (s : EState) (a : Resp) (hpc : 
     simp only [pushedAnswer, ↓reduceIte, Option.some.injEq] at h
     subst h
     simp [ownAnswer, hpc]
+
+/-! ## 5. `RE(...)` returns the uids of the runs it opened, in order -/
+
+/-- For EVERY plan, script and fuel: when the call hands control back, the list it returns (`_run_start_uids`,
+    emptied by `__call__`) is exactly the list of runs of the RunStart documents emitted since the call began
+    (`startsOf s0.docs` are the start documents of earlier calls), in emission order. -/
+theorem C13_return_uids (maxArr : Nat) (sc : Script) (fuel : Nat) (s0 : EState) (plan : Gen) :
+    startsOf (schedule maxArr sc fuel (startCall s0 plan)).docs =
+      startsOf s0.docs ++ (schedule maxArr sc fuel (startCall s0 plan)).runStartUids := by
+  have h0 : UidsInv (startsOf s0.docs) (startCall s0 plan) := by
+    show startsOf s0.docs = startsOf s0.docs ++ []
+    simp
+  exact (ext_schedule maxArr sc fuel _).uidsInv h0
+
+/-- ... and `resume()` / `abort()` / `stop()` / `halt()` (which return the same list) keep it so -/
+theorem C13_return_uids_resume (maxArr : Nat) (sc : Script) (fuel : Nat) (pre : List Nat) (s : EState) (kind : String)
+    (h : UidsInv pre s) :
+    UidsInv pre (schedule maxArr sc fuel (startResume s)) ∧ UidsInv pre (schedule maxArr sc fuel (startTerminate s kind)) :=
+  ⟨((ext_startResume s).trans (ext_schedule maxArr sc fuel _)).uidsInv h,
+   ((ext_startTerminate s kind).trans (ext_schedule maxArr sc fuel _)).uidsInv h⟩
 
 /-! ## non-vacuity: concrete executions of the model (kernel evaluation) -/
 
